@@ -906,7 +906,11 @@ pub fn probe_c10(sc: &Scenario, rules: &RuleSet, pre: &Fs, clock: ClockModel, st
                         (Some(x), Some(y)) if x.data == y.data && x.exec == y.exec => {},
                         (Some(x), Some(y)) if x.data == y.data =>
                         {
-                            out.push((ops.clone(), Finding { property: "C10", what: "target came back without its executable permission".into(), detail: format!("{}: exec {} -> {}", t, x.exec, y.exec) }));
+                            // one cache entry per content: a cleaned twin (same bytes, other permission) shares it
+                            let twin = g.scope_targets(&scope_c).iter().any(|u| *u != t && pre.file(u).map(|f| f.data == x.data && f.exec != x.exec).unwrap_or(false));
+                            let what = if twin { "target with a byte-identical cleaned twin of different permission came back with the wrong executable permission" }
+                                       else { "target came back with the wrong executable permission" };
+                            out.push((ops.clone(), Finding { property: "C10", what: what.into(), detail: format!("{}: exec {} -> {}", t, x.exec, y.exec) }));
                         },
                         _ =>
                         {
@@ -1396,6 +1400,7 @@ fn expand_worker(items: Arc<Vec<State>>, idx: Arc<AtomicUsize>, shared: Arc<Shar
             Some(Job
             {
                 prefix: vec![],
+                full: false,
                 body: Box::new(move ||
                 {
                     let st = &items[si];
@@ -1407,11 +1412,10 @@ fn expand_worker(items: Arc<Vec<State>>, idx: Arc<AtomicUsize>, shared: Arc<Shar
                         *cur_op.borrow_mut() = usize::MAX - 1;
                         let mut fs = vec![];
                         probe_c10(&sc, &sc.variants[st.variant], &st.fs, clock, &mut stats, &mut fs);
-                        for (ops, f) in fs
+                        for (ops, mut f) in fs
                         {
-                            let mut p = st.path.clone();
-                            p.extend(ops);
-                            findings.push((p, f));
+                            f.detail = format!("probe [{}]: {}", ops_short(&ops), f.detail);
+                            findings.push((st.path.clone(), f));
                         }
                     }
                     if !probes_only
@@ -1463,11 +1467,10 @@ pub fn replay_history(sc: &Scenario, clock: ClockModel, or: &Oracles, paired: bo
         {
             let mut fs = vec![];
             probe_c10(&sc2, &sc2.variants[st.variant], &st.fs, clock, &mut stats, &mut fs);
-            for (o, f) in fs
+            for (o, mut f) in fs
             {
-                let mut p = st.path.clone();
-                p.extend(o);
-                findings.push((p, f));
+                f.detail = format!("probe [{}]: {}", ops_short(&o), f.detail);
+                findings.push((st.path.clone(), f));
             }
         }
         (findings, st)
